@@ -149,6 +149,7 @@ def decoy_obs(dm):
 
 def call_query(m, cn, name, args, form, conv):
     """one public call, in one of the accepted call forms, ids given in the numeric representation `conv`"""
+    import numpy as np
     a = [conv(x) for x in args]
     if name == "direct_face":
         return [lambda: cn.direct_face(a[0], a[1]), lambda: cn.direct_face(a[0], a[1], False),
@@ -166,7 +167,8 @@ def call_query(m, cn, name, args, form, conv):
     if name in ("boundary_edges", "interior_edges", "boundary_vertices", "interior_vertices"):
         return list(getattr(m, name))   # a copy: later queries must not change what was observed now
     if name in ("is_edge_on_border", "is_vertex_on_border"):
-        return getattr(m, name)(*a)
+        r = getattr(m, name)(*a)
+        return bool(r) if isinstance(r, (int, float, np.bool_, np.integer, np.floating)) else r   # the type of the truth value is free
     if name == "clear_boundary_data":
         return m.clear_boundary_data()
     return getattr(cn, name)(*a)
